@@ -1,9 +1,12 @@
 (* C08: extraction of the Builder model for the node-list correspondence harness. ExtrOcamlBasic only (bool/option/unit/list/prod);
    numbers stay the extracted positive/Z/nat datatypes. *)
 From Coq Require Extraction ExtrOcamlBasic.
-From Verif Require Import Builder.BuilderModel.
+From Verif Require Import Builder.BuilderModel X86Validate.ValidateModel Builder.ValidateBridge Builder.X86Dec.
+From VerifGen Require Import X86Sigs.
 Extraction Blacklist List String Int.
 Extraction "builder.ml"
   BuilderModel.init_state BuilderModel.step BuilderModel.replay BuilderModel.trace BuilderModel.lookup
   BuilderModel.final_type_size BuilderModel.kInvalidArgument BuilderModel.kInvalidLabel BuilderModel.kInvalidSection BuilderModel.kLabelAlreadyBound BuilderModel.kInvalidOperandSize BuilderModel.kInvalidState BuilderModel.kSentinelFuncEnd
-  BuilderModel.kOptReserved BuilderModel.kAlignData BuilderModel.kBaseOpCapacity BuilderModel.kFullOpCapacity BuilderModel.kTypeUInt8.
+  BuilderModel.kOptReserved BuilderModel.kAlignData BuilderModel.kBaseOpCapacity BuilderModel.kFullOpCapacity BuilderModel.kTypeUInt8
+  BuilderModel.op_count BuilderModel.capacity_of
+  X86Dec.emit_validated_x86 X86Dec.dec_x86 X86Sigs.x86_vtables.
